@@ -564,7 +564,7 @@ func (o *obCtx) mustCheckX(id string, isCallee func(call *ssa.Call) bool, desc s
 		return
 	}
 	var calls []*ssa.Call
-	spec := SeqSpec{Fn: o.fn, NoMerge: false}
+	spec := SeqSpec{Fn: o.fn, NoMerge: false, InlinedCalls: true}
 	spec.Event = func(w *Walker, p *PState, ins ssa.Instruction) string {
 		if call, ok := ins.(*ssa.Call); ok && isCallee(call) {
 			found := false
@@ -714,6 +714,11 @@ func roleCallTo(fn *ssa.Function, args ...role) role {
 // roleExtract: the idx-th result of a call matching inner.
 func roleExtract(inner role, idx int) role {
 	return func(v ssa.Value) bool {
+		// the result of the named call itself (also when the callee is a new function that
+		// stripConv would look through)
+		if ex, ok := stripConvNoLook(v).(*ssa.Extract); ok && ex.Index == idx && inner(ex.Tuple) {
+			return true
+		}
 		ex, ok := stripConv(v).(*ssa.Extract)
 		return ok && ex.Index == idx && inner(ex.Tuple)
 	}
